@@ -104,6 +104,7 @@ def reset_path(E, trace):
     E.input_order = []
     E.randcalls = 0
     E.observations = []
+    E.range_cap = None
     E.pc_hash = 0
 
 
